@@ -183,6 +183,18 @@ CHECKS = {
         "the statement (POSIX paths).",
         "DESIGN.md 4/C14",
     ),
+    "C15": (
+        "exploration",
+        "model-based property testing: composition operations over overlapping-name descriptors compared with a "
+        "dictionary-based reference model",
+        "Generated lists of records whose field names are drawn from a six-name pool (incl. 'ts' and "
+        "'ts_description') with differing types are extended / merged (replace on/off, rename), expanded per "
+        "timestamp, grouped (incl. nested groups), copied with _replace, re-initialised from dicts/records and "
+        "projected with RecordFieldRewriter; field order, field types, value provenance (first/last wins), names and "
+        "the untouched originals are compared with /verif's reference model.",
+        "Metadata of composed records is only constrained where the statement says so.",
+        "DESIGN.md 4/C15",
+    ),
 }
 
 NOT_APPLICABLE = {}
